@@ -119,6 +119,15 @@ impl<'a> Dispatcher<'a, '_> {
     }
 }
 
+#[cfg(feature = "verif-hooks")]
+impl Dispatcher<'_, '_> {
+    /// Verification hook: the executed layout (systems per group per stage)
+    /// and the number of thread-local systems.
+    pub fn verif_shape(&self) -> (Vec<Vec<usize>>, usize) {
+        (self.inner.verif_shape(), self.thread_local.len())
+    }
+}
+
 impl RunNow<'_> for Dispatcher<'_, '_> {
     fn run_now(&mut self, world: &World) {
         self.dispatch(world);
